@@ -521,6 +521,9 @@ def parse_lrcr_crb(fdata: bytes, header: Header) -> List[str]:
 
     bytes_per_const = 6
     idx = header.crb_offset
+    # Bytes of constant data declared by the records read so far: the data of
+    # different constants do not overlap, so together they fit in the file
+    declared = 0
 
     logging.debug("====== parse LSCR constants record block =================")
     for i in range(0, header.crb_nconstants):
@@ -560,6 +563,9 @@ def parse_lrcr_crb(fdata: bytes, header: Header) -> List[str]:
                                       fdata[idxc:idxc+4])[0] - 1
             idxc += 4
             #logging.debug("strlength = %s", strlength) 
+            declared += 4 + max(0, strlength)
+            if declared > len(fdata):
+                raise ValueError("Constant data larger than the file!")
 
             strval = fdata[idxc:idxc+strlength].decode(get_encoding())
             constants.append(escape_string(strval))
@@ -578,6 +584,9 @@ def parse_lrcr_crb(fdata: bytes, header: Header) -> List[str]:
                                         fdata[idxc:idxc+4])[0]
             idxc += 4
             #logging.debug("floatlength = %s", floatlength)
+            declared += 4 + max(0, floatlength)
+            if declared > len(fdata):
+                raise ValueError("Constant data larger than the file!")
             
             float_val =  unpack_float80(fdata[idxc:idxc+floatlength])
             #logging.debug("float Value = %s", float_val)
